@@ -1,3 +1,4 @@
+import MiniconfVerif.Lemmas.GenTieTuples
 import MiniconfVerif.Lemmas.GenTieValue
 import MiniconfVerif.Lemmas.WalkFrame
 import MiniconfVerif.Lemmas.WalkHist
@@ -100,5 +101,12 @@ theorem source_array_access_is_model (io : Io) (elems : List Tree) (ks : KeySrc)
         Tree.array es = (Tree.walk io .mutAny (.array elems) ks).tree) :=
   ⟨fun c h => array_ser_tie io elems ks hn hnp c h, fun c h => array_de_tie io elems ks hn hnp c h,
    fun c h => array_ref_tie io elems ks hn hnp c h, fun c h => array_mut_tie io elems ks hn hnp c h⟩
+
+
+open MiniconfVerif.GenTie in
+/-- the same for the n-tuples (n = 1..8, the `impl_tuple!` body expanded): the four by-key functions as translated
+from impls.rs are the model's walk at a `numbered n` node without attributes — the field the index designates, and
+only it, is read or replaced (32 statements: `Lemmas/GenTieTuples.lean`). -/
+theorem source_tuple_access_is_model : TupleValueTies := tupleValueTies
 
 end MiniconfVerif.C01
